@@ -147,7 +147,10 @@ nni_verif_rec_aio(int kind, nni_aio *aio, int arg)
 	if (!nni_atomic_get_bool(&nni_verif_trace_on)) {
 		return;
 	}
-	int i = nni_atomic_inc_nv(&nni_verif_trace_n) - 1;
+	int i;
+	do {
+		i = nni_atomic_get(&nni_verif_trace_n);
+	} while (!nni_atomic_cas(&nni_verif_trace_n, i, i + 1));
 	if ((unsigned) i >= NNI_VERIF_TRACE_MAX) {
 		return;
 	}
